@@ -230,8 +230,8 @@ def literal_tensor(it, v, node, kind="tensor"):
             if any(s[0] is None for s in subs):
                 return None, None
             shapes = {s[1] for s in subs}
-            if len(shapes) != 1:
-                return None, None
+            if len(shapes) != 1 or subs[0][1] is None:
+                return T.stack0(*[s[0] for s in subs]), None
             return T.stack0(*[s[0] for s in subs]), (len(subs),) + subs[0][1]
         if isinstance(x, VTens):
             return x.term, x.shape
